@@ -70,6 +70,9 @@ func doReplay(path string, ops []*rs.Op) {
 	if op == nil {
 		fw.Fatalf("replay: unknown op %q", rc.Op)
 	}
+	if rc.Form == "chain" || rc.Form == "raw" {
+		replayChain(rc, op, ops)
+	}
 	if rc.Op2 != "" {
 		replayPair(rc, op, ops)
 	}
@@ -305,6 +308,79 @@ func main() {
 				"reference": []string{wantString(a.op, a.exp[0]), wantString(b.op, b.exp[0])}})
 		}
 	}
+	// ---- consumer chains (upper half of 64-bit slots) and raw host-API results
+	chainStats := map[string]int64{}
+	var rawUpperOps [2][]string
+	if only == "" || os.Getenv("C05_CHAINS") != "" {
+		prods := buildProducers(ops)
+		conss := buildConsumers(ops)
+		if only != "" {
+			var f []*chainProducer
+			for _, p := range prods {
+				if strings.Contains(p.op.Name, only) {
+					f = append(f, p)
+				}
+			}
+			prods = f
+		}
+		chainStats["producers"] = int64(len(prods))
+		chainStats["consumers"] = int64(len(conss))
+		fw.Parallel(len(prods), nw, func(i int) {
+			if run.Expired() {
+				run.Capped("budget (chains)")
+				return
+			}
+			w := <-pool
+			defer func() { pool <- w }()
+			p := prods[i]
+			cc := w.runChains(p, conss, st, func(cm chainMismatch) {
+				form, cname := "chain", ""
+				if cm.c == nil {
+					form = "raw"
+				} else {
+					cname = cm.c.name
+				}
+				sig := fmt.Sprintf("%s:%s→%s:%s", form, cm.p.op.Name, cname, engineNames[cm.engine])
+				rc := replayCase{Op: cm.p.op.Name, Op2: cname, Engine: engineNames[cm.engine], Form: form, Got: cm.got, Want: cm.want}
+				if len(cm.p.tuples) > cm.it {
+					t := cm.p.tuples[cm.it]
+					for k := range cm.p.op.In {
+						rc.Operands = append(rc.Operands, [2]string{fmt.Sprintf("%#x", t[k].Lo), fmt.Sprintf("%#x", t[k].Hi)})
+					}
+					rc.Operands = append(rc.Operands, [2]string{fmt.Sprintf("%#x", cm.z), "0x0"})
+				}
+				run.Violation(sig, cm.text(), rc)
+				outcomes.Inc("mismatch")
+			})
+			mu.Lock()
+			chainStats["functions"] += int64(len(consumersFor(p.op, conss)))
+			chainStats["producer_tuples"] += int64(len(p.tuples))
+			chainStats["chain_executions"] += cc.execs
+			chainStats["raw_calls"] += cc.rawCalls
+			for e := 0; e < 2; e++ {
+				if cc.rawUpper[e] > 0 {
+					rawUpperOps[e] = append(rawUpperOps[e], p.op.Name)
+				}
+			}
+			chainStats["raw_call_upper_half_nonzero_compiler"] += cc.rawUpper[0]
+			chainStats["raw_call_upper_half_nonzero_interpreter"] += cc.rawUpper[1]
+			distinct += cc.execs / 2
+			nontriv += cc.execs / 2
+			formsSeen["chain"] += cc.execs
+			formsSeen["raw"] += cc.rawCalls
+			mu.Unlock()
+		})
+		// informational outcomes (not verdicts): what the host API hands back in the upper half of an i32/f32 result
+		outcomes.AddN("raw_call_i32_f32_result_upper_half_zero", chainStats["raw_calls"]-chainStats["raw_call_upper_half_nonzero_compiler"]-chainStats["raw_call_upper_half_nonzero_interpreter"])
+		if n := chainStats["raw_call_upper_half_nonzero_interpreter"]; n > 0 {
+			outcomes.AddN("raw_call_i32_f32_result_upper_half_NONZERO:interpreter(informational)", n)
+			run.Note("interpreter: %d raw api.Function.Call results of type i32/f32 carry non-zero bits in the upper half of the uint64 (informational)", n)
+		}
+		if n := chainStats["raw_call_upper_half_nonzero_compiler"]; n > 0 {
+			outcomes.AddN("raw_call_i32_f32_result_upper_half_NONZERO:compiler(informational)", n)
+			run.Note("compiler: %d raw api.Function.Call results of type i32/f32 carry non-zero bits in the upper half of the uint64 (informational)", n)
+		}
+	}
 	// ---- thorough-tier streamed enumerations
 	bigStats := map[string]map[string]int64{}
 	if run.Thorough() && only == "" || os.Getenv("C05_BIG") != "" {
@@ -414,6 +490,10 @@ func main() {
 		"chunk":                     chunkN,
 	}
 	bounds["pairs_in_one_function"] = pairStats
+	bounds["consumer_chains"] = chainStats
+	sort.Strings(rawUpperOps[0])
+	sort.Strings(rawUpperOps[1])
+	bounds["raw_call_upper_half_nonzero_instructions"] = map[string][]string{"compiler": rawUpperOps[0], "interpreter": rawUpperOps[1]}
 	if len(bigStats) > 0 {
 		bounds["streamed_enumerations"] = bigStats
 	}
@@ -453,6 +533,39 @@ func signature(op *rs.Op, m mismatch, t Tuple, class string) string {
 		return fmt.Sprintf("icmp(const0,and)→branch:%s:%s", m.Engine, baseName(op))
 	}
 	return fmt.Sprintf("%s:%s:%s:%s", m.Op, m.Engine, m.Form, class)
+}
+
+// replayChain re-executes one producer (all its consumers and the raw call) on one operand tuple.
+func replayChain(rc replayCase, p *rs.Op, ops []*rs.Op) {
+	if len(rc.Operands) < len(p.In) {
+		fw.Fatalf("replay: bad chain case")
+	}
+	var t Tuple
+	for k := range p.In {
+		lo, _ := strconv.ParseUint(strings.TrimPrefix(rc.Operands[k][0], "0x"), 16, 64)
+		hi, _ := strconv.ParseUint(strings.TrimPrefix(rc.Operands[k][1], "0x"), 16, 64)
+		t[k] = rs.V{Lo: lo, Hi: hi}
+	}
+	r := p.Eval(t[0], t[1], t[2])
+	fmt.Printf("replay chain: R = %s(%s) = %s fed into every width-sensitive consumer, plus the raw host call\n", p.Name, fmtIn(p, t), wantString(p, r))
+	if r.Trap != rs.TrapNone || r.NaN[0] != rs.NotNaN {
+		fw.Fatalf("replay: R is not a determined value")
+	}
+	w := newWorker()
+	defer w.close()
+	failed := false
+	w.runChains(&chainProducer{op: p, tuples: []Tuple{t}, exp: []rs.Res{r}}, buildConsumers(ops), &stats{}, func(cm chainMismatch) {
+		fmt.Println("  MISMATCH:", cm.text())
+		if rc.Engine == "" || rc.Engine == engineNames[cm.engine] {
+			failed = true
+		}
+	})
+	if failed {
+		fmt.Println("replay: still fails")
+		os.Exit(1)
+	}
+	fmt.Println("replay: both engines agree with the reference")
+	os.Exit(0)
 }
 
 // replayPair re-executes one function of the pair family.
